@@ -28,6 +28,13 @@ def run(check):
     check.run_rule('C07.R2', lambda c: rule_source_handling(c, 'C07.R2'))
     check.run_rule('C07.R3', lambda c: rule_recursion_guard(c, 'C07.R3'))
     check.run_rule('C07.R4', lambda c: rule_probe_discipline(c, 'C07.R4'))
+    def r10(c):
+        # the other implicit exception visible in the code: subscripting a provenance map with a key it need not have ('+depths' of a
+        # hand-built or plain signature a forger returned) -- KeyError leaves retrieval (shared with C15.R7)
+        from ..rules_implicit import rule_partial_map_lookup
+        from ..rules_alias import Alias
+        rule_partial_map_lookup(c, 'C07.R10', Alias(c))
+    check.run_rule('C07.R10', r10)
     from ..rules_escape import rule_implicit_attribute_errors
     check.run_rule('C07.R4b', lambda c: rule_implicit_attribute_errors(c, 'C07.R4'))
     check.run_rule('C07.R5', lambda c: rule_sphinx(c, 'C07.R5'))
